@@ -48,7 +48,7 @@ CAPKEY = {"k1": "00112233445566778899aabbccddeeff00112233445566778899aabbccddeef
 EXP = {30: "30m0s", 45: "45m0s", 60: "1h0m0s"}
 
 CAND = {"ops": [list(CREDS[k]) for k in ("o1", "o2", "ox")], "svc": [SVC["s1"], SVC["s2"]],
-        "addrs": [ADDR["a1"], ADDR["a2"]], "origins": [ORIGIN[k] for k in ("g1", "g2", "gx")],
+        "addrs": [ADDR["l"], ADDR["a1"], ADDR["a2"]], "origins": [ORIGIN[k] for k in ("g1", "g2", "gx")],
         "bridges": [BRIDGE["b1"], BRIDGE["bx"]]}
 
 
@@ -83,13 +83,24 @@ TOML = {
     "E": HEAD + 'SessionExpiration = "45m0s"\nCaptchaURL = "%s"\nCaptchaHMACSecret = "%s"\nCaptchaRequiredForLogin = true\n[IRC]\n' % (CAPURL["u1"], CAPKEY["k1"])
          + _ops("o1") + _tbl("WhitelistedOrigins", [(ORIGIN["g1"], "true")]),
     "Z": "",
+}
+# the [Banned] table as a dimension of its own: otherwise identical bodies with the
+# table absent / present but empty / listing an address
+TOML.update({
+    "Ae": TOML["A"] + "[Banned]\n",
+    "Ab": TOML["A"] + _tbl("Banned", [(ADDR["a1"], '"listed"')]),
+    "Cn": TOML["C"].replace(_tbl("Banned", [(ADDR["a1"], '"listed"')]), ""),
+    "Ce": TOML["C"].replace(_tbl("Banned", [(ADDR["a1"], '"listed"')]), "[Banned]\n"),
+})
+TOML.update({
     # invalid: the valid-looking lines before the error make a half-parsed install visible
     "Xsyn": HEAD + 'SessionExpiration = "5m0s"\nMaxChannels = 7\nMaxSessions = = 3\n',
     "Xtype": HEAD + 'SessionExpiration = "5m0s"\nMaxChannels = 7\nMaxSessions = "many"\n',
     "Xdur": HEAD + 'MaxChannels = 7\nSessionExpiration = "soon"\n',
     "Xhex": HEAD + 'SessionExpiration = "5m0s"\nMaxChannels = 7\nCaptchaHMACSecret = "zz"\n',
-}
-VALID = ("P", "A", "B", "C", "D", "E", "Z", "R")
+})
+VALID = ("P", "A", "Ae", "Ab", "B", "C", "Cn", "Ce", "D", "E", "Z", "R")
+BANNED_KIND = {}
 
 
 # ------------------------------------------------------------- small helpers
@@ -177,6 +188,13 @@ def check_table(ctx, workdir):
     for b in tab["invalid"]:
         if b not in TOML:
             raise vlib.Inconclusive("invalid body %s has no TOML text" % b)
+    for b, kind in tab["bannedKind"].items():
+        doc = tomllib.loads(TOML[b])
+        mine = "absent" if "Banned" not in doc else ("listed" if doc["Banned"] else "empty")
+        if mine != kind:
+            raise vlib.Inconclusive("body %s: [Banned] table is %s in the TOML text, Config.tla says %s" % (b, mine, kind))
+        BANNED_KIND[b] = kind
+    BANNED_KIND["R"] = "same"
     return tab
 
 
@@ -246,6 +264,8 @@ def compile_behaviour(name, beh):
                 add(k, {"op": "replica", "mode": "restore_snapshot", "tag": tag(True)})
             else:
                 add(k, {"op": "restart"})
+        elif a == "Battery":
+            add(k, {"op": "cfgbattery", "tag": tag(True)})
         else:
             raise vlib.Inconclusive("unknown model action %r" % a)
         add(k, {"op": "cfgobs", "tag": dict(tag(), obs=True)})
@@ -318,6 +338,7 @@ def view_of(r, users):
         "mbanned": sorted(ident(ADDR, a, "addr") for a in c.get("marshalBanned") or []),
         "structRev": c["rev"], "structDiff": cfg_diff(cfg, struct),
         "bridgeFn": sorted(ident(BRIDGE, b, "bridge") for b, v in (c.get("trustedBridge") or {}).items() if v),
+        "bannedFn": sorted(ident(ADDR, a, "addr") for a, v in (c.get("bannedFn") or {}).items() if v),
     }
 
 
@@ -342,7 +363,7 @@ def has(lines, sub):
 
 def classify_battery(bat):
     b = {"create": "na", "login": "na", "oper": {k: "na" for k in ("o1", "o2", "ox")},
-         "svc": {k: "na" for k in ("s1", "s2")}, "banned": {k: "na" for k in ("a1", "a2")}, "capx": "na", "joins": -1,
+         "svc": {k: "na" for k in ("s1", "s2")}, "banned": {k: "na" for k in ("l", "a1", "a2")}, "capx": "na", "joins": -1,
          "captcha": ""}
     if bat.get("err"):
         raise vlib.Inconclusive("battery failed: %s" % bat["err"])
@@ -369,7 +390,7 @@ def classify_battery(bat):
         elif w == "modex":
             b["capx"] = "no" if has(ln, "Cannot set mode +x") else ("yes" if has(ln, "MODE #zzb1 +x") else "?")
         elif w.startswith("addr:"):
-            k = ("a1", "a2")[int(w[5:])]
+            k = ("l", "a1", "a2")[int(w[5:])]
             b["banned"][k] = "yes" if has(ln, "You are banned") else "no"
         elif w.startswith("svc:"):
             k = ("s1", "s2")[int(w[4:])]
@@ -391,6 +412,7 @@ def rep_of(r, mode):
     return {"mode": mode, "rev": c["rev"], "exp": dur_ns(c["fsmExpNs"]), "cfg": strip(cfg),
             "orig": sorted(ident(ORIGIN, o, "origin") for o, v in (c.get("originWhitelisted") or {}).items() if v),
             "bridgeFn": sorted(ident(BRIDGE, b, "bridge") for b, v in (c.get("trustedBridge") or {}).items() if v),
+            "bannedFn": sorted(ident(ADDR, a, "addr") for a, v in (c.get("bannedFn") or {}).items() if v),
             "nS": c["nSessions"], "nC": c["nChannels"], "mbanned": sorted(ident(ADDR, a, "addr") for a in c.get("marshalBanned") or []),
             "beh": classify_battery(ex.get("battery") or {}),
             "secretHex": doc.get("CaptchaHMACSecret", ""), "url": doc.get("CaptchaURL", "")}
@@ -501,6 +523,9 @@ F5_SIG = "restored-replica-loses-whitelisted-origins"
 F3_SIG = "fsm-expiration-lost-after-restore"
 F18_SIG = "fsm-expiration-regresses-after-snapshot-fold"
 F19_SIG = "captcha-configured-differs-after-restore"
+BANS_SIG = "bans-not-exactly-config"            # BansAreExactlyConfig
+AGREE_SIG = "replicas-disagree-on-bans"         # ReplicasAgreeOnBans
+KEEPS_SIG = "accepted-post-keeps-old-bans"      # AcceptedPostReplacesBans
 
 
 class Verdicts:
@@ -601,7 +626,15 @@ def judge_rep(verd, ev, rep, ref_cfg, ref_rev, where):
                               "became an empty non-nil slice), refused where the config was applied from the log" % (where, mode), ev)
         else:
             verd.bad("replica-behaviour-differs-%s-%s" % (mode, k), "%s: %s on the %s replica is %r, its config implies %r" % (where, k, mode, got, w), ev)
-    for grp, key in (("oper", "ops"), ("svc", "svc"), ("banned", "banned")):
+    if sorted(rep["bannedFn"]) != sorted(c["banned"]):
+        verd.bad("%s-%s" % (BANS_SIG, mode), "%s: IRCServer.Banned() says %s are banned on the %s node, its config lists %s" % (
+            where, rep["bannedFn"], mode, c["banned"]), ev)
+    for ident_, got in b["banned"].items():
+        w = "yes" if ident_ in c["banned"] else "no"
+        if got != "na" and got != w:
+            verd.bad("%s-%s" % (BANS_SIG, mode), "%s: a message from %s %s on the %s node, whose config lists the bans %s" % (
+                where, ident_, "is answered ERROR :Closing Link (banned)" if got == "yes" else "is accepted", mode, c["banned"]), ev)
+    for grp, key in (("oper", "ops"), ("svc", "svc")):
         for ident_, got in b[grp].items():
             w = "yes" if ident_ in c[key] else "no"
             if got != "na" and got != w:
@@ -618,6 +651,7 @@ def judge_rep(verd, ev, rep, ref_cfg, ref_rev, where):
 
 def judge(events, verd, stats):
     """the C16 predicates on the recorded observations."""
+    live_beh = {}
     for ev in events:
         if ev.get("ev") != "Step":
             continue
@@ -642,6 +676,12 @@ def judge(events, verd, stats):
                 else:
                     want = pre["cfg"] if ev["body"] == "R" else strip(project(tomllib.loads(TOML[ev["body"]])))
                     d = cfg_diff(post["cfg"], want)
+                    left = sorted((set(post["cfg"]["banned"]) | set(post["bannedFn"])) - set(want["banned"]))
+                    if left and ev["body"] != "R":
+                        d = [k for k in d if k != "banned"]
+                        verd.bad(KEEPS_SIG, "%s: accepted post of body %s ([Banned] table %s) must replace the bans; still banned afterwards: %s "
+                                            "(GET /config lists %s, IRCServer.Banned() says %s; before the post %s)" % (
+                                     where, ev["body"], BANNED_KIND.get(ev["body"], "?"), left, post["cfg"]["banned"], post["bannedFn"], pre["cfg"]["banned"]), ev)
                     if d:
                         verd.bad("accepted-post-config-not-installed", "%s: after the accepted post of body %s GET /config differs from it in %s: %s" % (
                             where, ev["body"], d, {k: post["cfg"][k] for k in d}), ev)
@@ -665,7 +705,26 @@ def judge(events, verd, stats):
             else:
                 verd.bad("fsm-expiration-differs-from-config-after-" + a.lower(), "%s: FSM.sessionExpiration() %sm, config in force %sm" % (
                     where, post["exp"], post["cfg"]["exp"]), ev)
+        # bans in force are exactly the config's (GET /config) -- after every step
+        if sorted(post["bannedFn"]) != sorted(post["cfg"]["banned"]):
+            verd.bad(BANS_SIG + "-live", "%s: IRCServer.Banned() says %s are banned, GET /config lists %s" % (where, post["bannedFn"], post["cfg"]["banned"]), ev)
+        # replicas agree on who is banned (node before shutdown / battery run on it, log replay, snapshot restore)
+        if a == "Battery" and ev["reps"]:
+            live_beh[ev["p"]] = ev["reps"][0]["beh"]["banned"]
+        elif a in ("Create", "Delete", "Msg", "Inject") or (a == "PostConfig" and ev["res"] == "ok"):
+            live_beh.pop(ev["p"], None)
+        if a == "Restart" and ev["reps"]:
+            views = [("node before shutdown", sorted(pre["bannedFn"]), live_beh.get(ev["p"]))]
+            views += [(r["mode"], sorted(r["bannedFn"]), r["beh"]["banned"]) for r in ev["reps"]]
+            for x in range(len(views)):
+                for y in range(x + 1, len(views)):
+                    (n1, f1, b1), (n2, f2, b2) = views[x], views[y]
+                    diff = [k for k in (b1 or {}) if b2 and b1[k] != "na" and b2[k] != "na" and b1[k] != b2[k]]
+                    if f1 != f2 or diff:
+                        verd.bad(AGREE_SIG, "%s: %s and %s disagree on who is banned: Banned() %s vs %s; messages from %s treated differently" % (
+                            where, n1, n2, f1, f2, diff), ev)
         if a == "Restart":
+            live_beh.pop(ev["p"], None)
             stats["restarts"] = stats.get("restarts", 0) + 1
             d = cfg_diff(post["cfg"], pre["cfg"])
             if "origins" in d and set(post["cfg"]["origins"]) < set(pre["cfg"]["origins"]):
@@ -723,8 +782,8 @@ def judge(events, verd, stats):
 # ----------------------------------------------------------- TLC trace check
 TRACE_KEYS = ("ev", "p", "i", "a", "res", "pre", "post", "taddr", "reps", "hdr", "hv", "body", "rev", "s", "cmd", "arg", "via",
               "mode", "observe")
-VIEW_KEYS = ("rev", "exp", "cfg", "raw", "nS", "nC", "sess", "cors", "mbanned")
-REP_KEYS = ("mode", "rev", "exp", "cfg", "orig", "nS", "nC", "beh")
+VIEW_KEYS = ("rev", "exp", "cfg", "raw", "nS", "nC", "sess", "cors", "mbanned", "bannedFn")
+REP_KEYS = ("mode", "rev", "exp", "cfg", "orig", "nS", "nC", "beh", "bannedFn")
 BEH_KEYS = ("create", "login", "oper", "svc", "banned", "capx", "joins")
 
 
@@ -766,18 +825,24 @@ def report_drift(ctx, tlc_out, events, acc):
 
 # --------------------------------------------------- behaviour generation
 _PROJ = {}
+REPLACED = ("ops", "svc", "bridges", "origins", "banned", "maxS", "maxC", "capUrl", "capLogin")
 
 
 def features(beh):
-    """what a behaviour exercises (for the greedy cover; never for a verdict)."""
+    """what a behaviour exercises (for the cover; never for a verdict). ("shape", ...)
+    features are the must-haves: every one the generators offer is replayed."""
     f = set()
     if not _PROJ:
         _PROJ.update({b: project(tomllib.loads(TOML[b])) for b in TOML if not b.startswith("X")})
     proj = _PROJ
     cur = proj["P"]
-    entries = [("cfg", proj["P"])]      # committed entries: what the newest snapshot could fold
-    folded_cfg = None                    # config state of the snapshot lineage
+    npos = 1                 # committed entries so far (the prelude is the first)
+    cfgpos = [(0, proj["P"])]  # (entry position, config) of every applied Config entry
+    folded_upto = 0          # entries [0, folded_upto) are inside the newest snapshot's state
     restarted = snapped = False
+    glined = False           # a GLINE succeeded and its ban is (per the model) still in force
+    pending = {}             # shape key -> entry position of the post that must have replaced something
+    nposts = 0
     for e in beh:
         a = e["a"]
         ctxs = ("",) + (("@restarted",) if restarted else ()) + (("@snapshotted",) if snapped else ())
@@ -787,95 +852,132 @@ def features(beh):
             f.add(("hdr", e["hdr"], e["res"]))
             f.add(("body", e["body"], e["res"]))
             if e["res"] == "ok":
-                cur = dict(cur) if e["body"] == "R" else proj[e["body"]]
-                entries.append(("cfg", cur))
+                nposts += 1
+                new = dict(cur) if e["body"] == "R" else proj[e["body"]]
+                kind = {"R": "same"}.get(e["body"]) or ("absent" if "Banned" not in tomllib.loads(TOML[e["body"]]) else
+                                                         "listed" if new["banned"] else "empty")
+                if glined:
+                    pending[("gline-then-post", kind)] = npos
+                    f.add(("shape", "gline-then-post", kind, "posted"))
+                if e["body"] != "R":
+                    for k in REPLACED:
+                        if cur[k] and not new[k]:
+                            pending[("post-removes", k)] = npos
+                    if new["banned"] or kind == "same":
+                        pass
+                    glined = glined and kind == "same"
+                cur = new
+                cfgpos.append((npos, cur))
+                npos += 1
         elif a == "Inject":
             f.add(("inject", e["body"], "same" if e["rev"] == e["prerev"] else "zero" if e["rev"] == 0 else "plus"))
             if e["res"] == "ok":
                 cur = proj[e["body"]]
-            entries.append(("cfg", cur) if e["res"] == "ok" else ("x", None))
+                cfgpos.append((npos, cur))
+                glined = False
+                pending.clear()
+            npos += 1
         elif a in ("Create", "Delete", "Msg"):
             if a == "Msg":
                 f.add(("via", e["cmd"], e["via"], e["res"]))
                 if e["cmd"] == "gline" and e["res"] == "ok":
-                    cur = dict(cur, banned=sorted(set(cur["banned"]) | {"?"}), glined=True)
-            entries.append(("x", None))
+                    glined = True
+                    f.add(("shape", "gline", "after-%d-posts" % min(nposts, 2)))
+                    if nposts >= 2:
+                        pending[("post-then-gline", "")] = npos
+                if e["res"] == "banned":
+                    f.add(("banned-by", "gline" if glined else "list", e["cmd"]))
+            npos += 1
+        elif a == "Battery":
+            for key in pending:
+                f.add(("shape",) + key + ("battery-on-live",))
+            npos += 1
         elif a == "Snapshot":
             f.add(("snapshot", e["mode"], e["via"]))
             snapped = True
             if e["mode"] == "allButLast":
-                cf = [c for t, c in entries[:-1] if t == "cfg"]
-                if cf:
-                    folded_cfg = cf[-1]
-                    if folded_cfg["exp"] != cur["exp"]:
-                        f.add(("shape", "fold-older-config-with-other-expiration"))
-                    if entries[-1][0] != "cfg":
-                        f.add(("shape", "fold-config-in-force"))
-                        if cur.get("glined"):
-                            f.add(("shape", "fold-gline"))
+                folded_upto = npos - 1
+                inside = [c for p_, c in cfgpos if p_ < folded_upto]
+                if inside and inside[-1]["exp"] != cur["exp"]:
+                    f.add(("shape", "fold-older-config-with-other-expiration"))
+                if cfgpos[-1][0] < folded_upto:
+                    f.add(("shape", "fold-config-in-force"))
         elif a == "Restart":
             restarted = True
             f.add(("restart", e["observe"]))
-            if folded_cfg is not None and entries[-1][0] != "cfg":
+            if cfgpos[-1][0] < folded_upto:
+                c = cfgpos[-1][1]
                 f.add(("shape", "restart-from-folded-config", e["observe"]))
-                if folded_cfg["origins"]:
+                if c["origins"]:
                     f.add(("shape", "restart-folded-origins", e["observe"]))
-                if folded_cfg["capUrl"] and not folded_cfg["capKey"]:
+                if c["capUrl"] and not c["capKey"]:
                     f.add(("shape", "restart-folded-captcha-url-without-secret", e["observe"]))
-                if folded_cfg.get("glined"):
-                    f.add(("shape", "restart-folded-gline", e["observe"]))
-                if folded_cfg["exp"] not in (0, 10):
+                if c["exp"] not in (0, 10):
                     f.add(("shape", "restart-folded-expiration", e["observe"]))
+            for key, pos in pending.items():
+                if pos < folded_upto and e["observe"]:
+                    f.add(("shape",) + key + ("replicas-after-fold",))
     return f
 
 
-def select(behs, n, rnd, forced=()):
-    """greedy cover of the features (lazy evaluation), then seeded random fill."""
+def greedy(feats, idxs, covered, want, budget):
+    """lazy greedy cover of the features selected by `want`."""
     import heapq
-    feats = [features(b) for b in behs]
-    covered = set()
-    for b in forced:
-        covered |= features(b)
     chosen = []
-    heap = [(-len(f), i) for i, f in enumerate(feats)]
+    heap = [(-len([x for x in feats[i] if want(x)]), i) for i in idxs]
     heapq.heapify(heap)
-    taken = set()
-    while heap and len(chosen) < n:
+    while heap and len(chosen) < budget:
         g, i = heapq.heappop(heap)
-        gain = len(feats[i] - covered)
+        gain = len([x for x in feats[i] if want(x) and x not in covered])
         if gain == 0:
             continue
         if heap and -heap[0][0] > gain:
             heapq.heappush(heap, (-gain, i))
             continue
         chosen.append(i)
-        taken.add(i)
         covered |= feats[i]
-    rest = [i for i in range(len(behs)) if i not in taken]
+    return chosen
+
+
+def select(behs, n, rnd):
+    """1. every ("shape", ...) feature on offer, 2. greedy cover of all features,
+    3. seeded fill (a third prefers behaviours with a successful GLINE / a shape)."""
+    feats = [features(b) for b in behs]
+    covered = set()
+    allidx = list(range(len(behs)))
+    must = greedy(feats, allidx, covered, lambda x: x[0] == "shape", n)
+    taken = set(must)
+    chosen = must + greedy(feats, [i for i in allidx if i not in taken], covered, lambda x: True, n - len(must))
+    taken = set(chosen)
+    rest = [i for i in allidx if i not in taken]
     rnd.shuffle(rest)
-    # fill: a third of the budget prefers the rare deep shapes (a successful GLINE,
-    # a restart from a snapshot that folded the config in force), the rest is uniform
+
     def rare(i):
-        return any(f[0] == "shape" for f in feats[i]) + 2 * any(f[:3] == ("Msg", "gline", "ok") for f in feats[i])
+        return any(x[0] == "shape" for x in feats[i]) + 2 * any(x[:3] == ("Msg", "gline", "ok") for x in feats[i])
     room = max(0, n - len(chosen))
-    pref = sorted(rest, key=lambda i: -rare(i))[:room // 3]
-    pref = [i for i in pref if rare(i) > 0]
+    pref = [i for i in sorted(rest, key=lambda i: -rare(i))[:room // 3] if rare(i) > 0]
     chosen += pref
     ps = set(pref)
     chosen += [i for i in rest if i not in ps][:max(0, n - len(chosen))]
-    return [behs[i] for i in chosen], covered
+    offered = set().union(*feats) if feats else set()
+    missing = sorted(str(x) for x in offered if x[0] == "shape" and x not in covered)
+    return [behs[i] for i in chosen], covered, len(must), missing
 
 
 SIMS_QUICK = [("Config_sim.cfg", 60, 18), ("Config_sim_traffic.cfg", 60, 18), ("Config_sim_snap.cfg", 80, 14)]
 SIMS_THOROUGH = [("Config_sim.cfg", 1200, 18), ("Config_sim_traffic.cfg", 1200, 18), ("Config_sim_snap.cfg", 1200, 14)]
-TRAPS = [("Config_trap_gline.cfg", "TrapGlineFolded"), ("Config_trap_repost.cfg", "TrapGlineRepost")]
+# exhaustive enumeration of the behaviours of a fixed shape (Spec* of Config.tla)
+SCENARIOS = ["Config_scen_gline_post.cfg", "Config_scen_post_gline.cfg", "Config_scen_replace.cfg"]
+# shapes the scenarios exist for: their absence means the generators are broken
+REQUIRED_SHAPES = [("shape", "gline-then-post", k, st) for k in ("absent", "empty", "listed", "same") for st in ("battery-on-live", "replicas-after-fold")] \
+    + [("shape", "post-then-gline", "", st) for st in ("battery-on-live", "replicas-after-fold")] \
+    + [("shape", "post-removes", k, st) for k in REPLACED for st in ("battery-on-live", "replicas-after-fold")]
 
 
 def generate(ctx):
-    """-> (behaviours printed by the simulator, behaviours TLC found as shortest
-    counterexamples of the trap invariants)."""
+    """behaviours printed by the simulator runs and by the scenario enumerations."""
     sims = SIMS_QUICK if ctx.quick else SIMS_THOROUGH
-    jobs = [("sim", k, x) for k, x in enumerate(sims)] + [("trap", k, x) for k, x in enumerate(TRAPS[:1] if ctx.quick else TRAPS)]
+    jobs = [("sim", k, x) for k, x in enumerate(sims)] + [("scen", k, x) for k, x in enumerate(SCENARIOS)]
 
     def one(job):
         kind, k, x = job
@@ -883,40 +985,33 @@ def generate(ctx):
             cfg, num, depth = x
             return ctx.tlc("Config", cfg=cfg, workers=2, simulate="num=%d" % num, depth=depth, deadlock=False,
                            timeout=240 if ctx.quick else 900, seed=ctx.seed * 7 + k, name="tlc-sim-%d" % k, heap="2g")
-        cfg, _ = x
-        dump = os.path.join(ctx.sub("traps"), "trap-%d.json" % k)
-        r = ctx.tlc("Config", cfg=cfg, workers=3, timeout=400, name="tlc-trap-%d" % k, heap="4g", extra=["-dumpTrace", "json", dump])
-        r.dump = dump
-        return r
+        return ctx.tlc("Config", cfg=x, workers=2, timeout=300, name="tlc-scen-%d" % k, heap="2g", deadlock=False)
 
     with concurrent.futures.ThreadPoolExecutor(max_workers=len(jobs)) as ex:
         results = list(ex.map(one, jobs))
-    behs, seen, traps = [], set(), []
+    behs, seen = [], set()
     for (kind, k, x), r in zip(jobs, results):
         ctx.add("tlc_runs")
-        if kind == "trap":
-            if r.invariant_violated != x[1] or not os.path.exists(r.dump):
-                raise vlib.Inconclusive("trap %s did not produce a behaviour (model changed?):\n%s" % (x[0], r.out[-1500:]))
+        name = x if kind == "scen" else x[0]
+        if not r.ok:
+            raise vlib.Inconclusive("TLC run %s failed: violated=%s\n%s" % (name, r.invariant_violated, r.out[-2500:]))
+        if kind == "scen":
             ctx.add("states", r.distinct)
             ctx.add("transitions", r.generated)
-            with open(r.dump) as fh:
-                d = json.load(fh)
-            traps.append([st[2][1]["last"] for st in d["counterexample"]["action"]])
-            continue
-        if not r.ok:
-            raise vlib.Inconclusive("TLC simulation %s failed: violated=%s\n%s" % (x[0], r.invariant_violated, r.out[-2500:]))
-        m = re.search(r"The number of states generated: (\d+)", r.out)
-        if m:
-            ctx.add("transitions", int(m.group(1)))
-        for b in rig_common.behaviours(r.out):
+        else:
+            m = re.search(r"The number of states generated: (\d+)", r.out)
+            if m:
+                ctx.add("transitions", int(m.group(1)))
+        got = rig_common.behaviours(r.out)
+        if not got:
+            raise vlib.Inconclusive("TLC run %s printed no behaviours" % name)
+        for b in got:
             key = json.dumps(b, sort_keys=True)
             if key not in seen:
                 seen.add(key)
                 behs.append(b)
-    if not behs:
-        raise vlib.Inconclusive("TLC printed no behaviours")
     behs.sort(key=lambda b: json.dumps(b, sort_keys=True))
-    return behs, traps
+    return behs
 
 
 # ----------------------------------------------------------------------- run
@@ -972,15 +1067,19 @@ def run(ctx):
         ctx.cov["model_exhibits_f5_candidate"] = rf.invariant_violated == "ReplicasSameOrigins"
 
     # ---- behaviours
-    behs, traps = generate(ctx)
-    nprog = 120 if ctx.quick else 1200
-    chosen, covered = select(behs, nprog - len(traps), rnd, forced=traps)
-    chosen = traps + chosen
-    ctx.cov["behaviours_generated"] = len(behs) + len(traps)
+    behs = generate(ctx)
+    nprog = 140 if ctx.quick else 1200
+    chosen, covered, nmust, missing = select(behs, nprog, rnd)
+    absent = [str(x) for x in REQUIRED_SHAPES if x not in covered]
+    if absent or missing:
+        raise vlib.Inconclusive("behaviour generation does not offer / the selection does not cover the required shapes: %s %s" % (absent[:6], missing[:6]))
+    ctx.cov["behaviours_generated"] = len(behs)
     ctx.cov["behaviours_replayed"] = len(chosen)
+    ctx.cov["behaviours_chosen_for_required_shapes"] = nmust
     ctx.cov["features_covered"] = len(covered)
     ctx.cov["shapes_covered"] = sorted(str(f[1:]) for f in covered if f[0] == "shape")
-    ctx.log("TLC: %d behaviours, %d chosen (%d features)" % (len(behs), len(chosen), len(covered)))
+    ctx.log("TLC: %d behaviours, %d chosen (%d for the %d required shapes; %d features)" % (
+        len(behs), len(chosen), nmust, len([x for x in covered if x[0] == "shape"]), len(covered)))
     named = [("b%03d" % k, b) for k, b in enumerate(chosen)]
 
     # ---- model -> code
